@@ -120,3 +120,18 @@ Example C01_range_needed :
   let o := org "https" ".example.com" (-5) in
   (tree_contains (build ps) o, allowed_by ps o) = (true, false).
 Proof. vm_compute. reflexivity. Qed.
+
+(* ---- through the public API: an actual (non-OPTIONS) request whose Origin value parses to the
+   tuple o is granted Access-Control-Allow-Origin if and only if the configuration lists "*" or
+   some listed pattern denotes o (for every accepted configuration not in no-cors-only PNA mode,
+   where actual requests are never granted anything) ---- *)
+Require Import Gen.Tables Model.Headers Model.Config Model.Serve Spec.Wire Spec.ConfigDoc Proofs.ServeP Proofs.Compose2P.
+
+Theorem C01_middleware : forall ace ip6 psl c ic dbg r pre v o,
+  new_internal_config ace ip6 psl c = inl ic -> c_pna_nocors c = false -> cors_free pre ->
+  beqb (r_method r) method_options = false ->
+  first (r_hdrs r) headers_Origin = Some v -> parse v = Some o ->
+  (hget (o_hdrs (serve (Some ic) dbg r pre)) headers_ACAO <> None <->
+   (lists_star (c_origins c) = true \/ allowed_by (cfg_patterns ace ip6 c) o = true)).
+Proof. exact c01_middleware. Qed.
+Print Assumptions C01_middleware.
